@@ -122,6 +122,14 @@ type Contract struct {
 	Uses     []string
 	Callback bool
 	NoAutoRecvNonNil bool
+	Closures map[int]*ClosureSpec // contracts of function literals of the body (k-th FuncLit in source order)
+}
+
+// ClosureSpec: a function literal verified on its own, from an arbitrary state that satisfies Requires
+// (the state in which a callback handed to the runtime - time.AfterFunc - will run one day).
+type ClosureSpec struct {
+	Requires []*Clause
+	Ensures  []*Clause
 }
 
 type Lemma struct {
@@ -169,7 +177,7 @@ type PkgSpec struct {
 	Axioms    []*Clause
 }
 
-var kwRe = regexp.MustCompile(`^(pure|pred|ghostinit|ghost|func|props|requires|ensures|trustens|panics|pensures|modifies|ghostparam|uses|inlinecall|dispatch|intwidth|anykinds|repeats|repeatargs|loop|ext|lemma|axiom|inline|trusted|decreases|ispure|noalloc|layers|withouttrust|budget|derives|thoroughonly|splitfirst|params|results|end|sort|ufun|callback|before|after|invokes)\b`)
+var kwRe = regexp.MustCompile(`^(closure|pure|pred|ghostinit|ghost|func|props|requires|ensures|trustens|panics|pensures|modifies|ghostparam|uses|inlinecall|dispatch|intwidth|anykinds|repeats|repeatargs|loop|ext|lemma|axiom|inline|trusted|decreases|ispure|noalloc|layers|withouttrust|budget|derives|thoroughonly|splitfirst|params|results|end|sort|ufun|callback|before|after|invokes)\b`)
 
 func loadPkgSpec(dir, pkgPath string) (*PkgSpec, error) {
 	ps := &PkgSpec{Path: pkgPath, Macros: map[string]*Macro{}, Ghosts: map[string]*GhostField{}, Contracts: map[string]*Contract{}, Sorts: map[string]bool{}, UFuns: map[string]*UFun{}, Callbacks: map[string]*Contract{}}
@@ -510,6 +518,44 @@ func (ps *PkgSpec) parseFile(file, data string) error {
 				return errf("bad ghostparam")
 			}
 			cur.GParams = append(cur.GParams, GhostParam{fs[0], strings.TrimSpace(fs[1])})
+		case "closure":
+			// closure K: requires EXPR | closure K: ensures EXPR
+			ci := strings.Index(rest, ":")
+			if ci < 0 || cur == nil {
+				return errf("bad closure clause")
+			}
+			kk, err := strconv.Atoi(strings.TrimSpace(rest[:ci]))
+			if err != nil {
+				return errf("closure K: needs an ordinal")
+			}
+			if cur.Closures == nil {
+				cur.Closures = map[int]*ClosureSpec{}
+			}
+			if cur.Closures[kk] == nil {
+				cur.Closures[kk] = &ClosureSpec{}
+			}
+			body := strings.TrimSpace(rest[ci+1:])
+			var kind string
+			switch {
+			case strings.HasPrefix(body, "requires"):
+				kind = "requires"
+			case strings.HasPrefix(body, "ensures"):
+				kind = "ensures"
+			default:
+				return errf("closure clause must be requires or ensures")
+			}
+			props, b := splitProps(strings.TrimSpace(body[len(kind):]))
+			e, err2 := parseSpec(b)
+			if err2 != nil {
+				return errf("%v", err2)
+			}
+			cl := &Clause{Kind: "closure." + kind, Props: props, E: e, Src: b}
+			if kind == "requires" {
+				cur.Closures[kk].Requires = append(cur.Closures[kk].Requires, cl)
+			} else {
+				cl.Ord = len(cur.Closures[kk].Ensures)
+				cur.Closures[kk].Ensures = append(cur.Closures[kk].Ensures, cl)
+			}
 		case "loop":
 			// loop K: invariant EXPR | loop K: ghost LHS := EXPR | loop K: decreases EXPR
 			ci := strings.Index(rest, ":")
